@@ -35,6 +35,7 @@ type dispParams struct {
 
 func dispatchSession(c *Ctx, p dispParams) {
 	desc := fmt.Sprintf("dispatch session %+v", p)
+	c.Journal(desc)
 	rp := map[string]interface{}{"op": "dispatch-session", "params": p}
 	if p.Procs > 0 {
 		defer runtime.GOMAXPROCS(runtime.GOMAXPROCS(p.Procs))
